@@ -6,6 +6,7 @@ import Spec.Access
 import Generated.C07Access
 import Model.DeclMods
 import Model.AccessDecl
+import Model.ScopeEntry
 import Generated.C07Decl
 import Drivers.Common
 /-! `vm_c07`: line protocol over `Model.Access` / `Model.Types` / `Model.Inst` with the regenerated tables.
@@ -43,6 +44,10 @@ import Drivers.Common
   shadow <H> <name:mod,name:mod,…|-> <scope|-> <recv>       → 1 | 0 | stuck | nomember   (Model.AccessDecl.access with the
          regenerated fallback relation Generated.C07Access.fallbackRel: which classes declare the one member looked
          at and with which modifier, the class whose code runs, the class of the receiver object)
+
+  shadow <H> <decls> <scope|-> <recv> <entry> <runtime|->   → the same for code entered through the named entry path
+         (Generated.C07Access.entryPaths; Model.ScopeEntry.scopeOf: the lexical class when the path records it, else the
+         runtime class of `$this`)
 
   H  = `name,ext|-,impl.impl|-;…`     fields of a request are separated by tabs
   W  = `c:name,ext|-,impl|-,abstract 0|1,concrete.m|-,abstr.m|-;…/i:name,ext.ext|-,meths|-;…`
@@ -390,6 +395,15 @@ def handle (line : String) : String :=
       (match Model.AccessDecl.accessJ H Generated.C07Access.fallbackRel Generated.C07Access.judgeRel (declsOf dl) scope r with
        | .allowed => "1" | .denied => "0" | .stuck => "stuck" | .nomember => "nomember")
     | _, _, _, _ => "bad-op"
+  | ["shadow", h, ds, sc, r, en, rt] =>
+    match parseHier h, parseDeclList ds, optName sc, r.toNat?, optName rt with
+    | some H, some dl, some scope, some r, some rt =>
+      let sc' : Option Name := match scope, rt with
+        | some lex, some run => some (Model.ScopeEntry.scopeOf (Model.ScopeEntry.find Generated.C07Access.entryPaths en) lex run)
+        | s, _ => s
+      (match Model.AccessDecl.accessJ H Generated.C07Access.fallbackRel Generated.C07Access.judgeRel (declsOf dl) sc' r with
+       | .allowed => "1" | .denied => "0" | .stuck => "stuck" | .nomember => "nomember")
+    | _, _, _, _, _ => "bad-op"
   | "acc" :: h :: rest =>
     match parseHier h, parseSite rest with
     | some H, some s => showOut (decide Generated.C07Access.table H s)
